@@ -220,6 +220,24 @@ func mkMuxStall(l *logger, delay time.Duration, stall string, entered chan<- str
 		rec("resp", e.ID, e.Metadata, textLen(e.Resource))
 		return nil
 	})
+	// a second handler of every kind that accepts everything as well: it must never run (first match
+	// only); if it does, the envelope has been delivered twice
+	m.MessageHandlerFunc(func(*lime.Message) bool { return true }, func(ctx context.Context, e *lime.Message, s lime.Sender) error {
+		rec("msg", e.ID, e.Metadata, textLen(e.Content))
+		return nil
+	})
+	m.NotificationHandlerFunc(func(*lime.Notification) bool { return true }, func(ctx context.Context, e *lime.Notification) error {
+		rec("not", e.ID, e.Metadata, len(e.Metadata["body"]))
+		return nil
+	})
+	m.RequestCommandHandlerFunc(func(*lime.RequestCommand) bool { return true }, func(ctx context.Context, e *lime.RequestCommand, s lime.Sender) error {
+		rec("req", e.ID, e.Metadata, textLen(e.Resource))
+		return nil
+	})
+	m.ResponseCommandHandlerFunc(func(*lime.ResponseCommand) bool { return true }, func(ctx context.Context, e *lime.ResponseCommand, s lime.Sender) error {
+		rec("resp", e.ID, e.Metadata, textLen(e.Resource))
+		return nil
+	})
 	return m
 }
 
